@@ -348,11 +348,13 @@ def repo_state() -> dict:
 
 
 def load_known(pid: str) -> list[dict]:
-    p = VERIF / "KNOWN_FINDINGS.json"
-    if not p.exists():
-        return []
-    data = json.loads(p.read_text())
-    return [f for f in data.get("known", []) if f["property"] == pid]
+    out = []
+    files = [VERIF / "KNOWN_FINDINGS.json"] + sorted((VERIF / "known.d").glob("*.json"))
+    for p in files:
+        if p.exists():
+            data = json.loads(p.read_text())
+            out += [f for f in data.get("known", []) if f["property"] == pid]
+    return out
 
 
 def main(argv=None) -> int:
